@@ -156,3 +156,49 @@ Theorem C06_limit_vocabulary : forall S k glimit limit pre ls,
    end).
 Proof. intros. split; [reflexivity|]. destruct k; reflexivity. Qed.
 Print Assumptions C06_limit_vocabulary.
+
+(* ------------------------------------------------------------------ *)
+(* AIGER and BTOR2, end to end, every admissible run (AigerLimits.v, Btor2Safe.v): an accepted AIGER file has
+   M <= (MAX_CODE-1)/2, I+L+A <= M, section sizes equal to the header counts (AagShape / AigShape), every literal
+   <= 2M+1, defining literals even and non-zero, binary gate inputs rhs0 <= lhs and rhs1 <= rhs0; every BTOR2 line ever
+   handed out is in the format's domain (ids and counts exact decimal values within u64 and non-zero where required,
+   positive widths, justice n followed by exactly n >= 1 ids, no leading zeros — line_ok). *)
+From Flussab Require Import Aiger AigerProofs AigerSafe AigerLimits Btor2 Btor2Proofs Btor2Rt Btor2Safe.
+
+Theorem C06_aag_limits : forall fuel maxc S fail ohd items lr' v',
+  Forall (fun b => b < 256) S -> nlen S < 2 ^ 62 -> (length S < fuel)%nat -> 1 <= maxc ->
+  aruns (parse_aag fuel maxc lrs_init) (view_init S fail) (ADone (ohd, items, FOk, lr') v') ->
+  exists hd, ohd = Some hd /\
+    a_max_var hd <= (maxc - 1) / 2 /\ a_inputs hd + a_latches hd + a_ands hd <= a_max_var hd /\
+    AagShape hd items /\
+    Forall (LitsLe (a_max_var hd * 2 + 1)) items /\ Forall DefsOk items.
+Proof. exact parse_aag_limits. Qed.
+Print Assumptions C06_aag_limits.
+
+Theorem C06_aig_limits : forall fuel maxc S fail ohd items lr' v',
+  Forall (fun b => b < 256) S -> nlen S < 2 ^ 62 -> (length S < fuel)%nat -> 1 <= maxc ->
+  aruns (parse_aig fuel maxc lrs_init) (view_init S fail) (ADone (ohd, items, FOk, lr') v') ->
+  exists hd, ohd = Some hd /\
+    a_max_var hd <= (maxc - 1) / 2 /\ a_inputs hd + a_latches hd + a_ands hd <= a_max_var hd /\
+    AigShape hd items /\
+    Forall (LitsLe (a_max_var hd * 2 + 1)) items.
+Proof. exact parse_aig_limits. Qed.
+Print Assumptions C06_aig_limits.
+
+Theorem C06_btor2_limits : forall fuel S fail items fin lr' v',
+  Forall (fun b => b < 256) S -> nlen S < 2 ^ 62 -> (length S < fuel)%nat ->
+  aruns (parse_btor2 fuel lrs_init) (view_init S fail) (ADone (items, fin, lr') v') ->
+  Forall Btor2Rt.line_ok items.
+Proof. exact parse_btor2_limits. Qed.
+Print Assumptions C06_btor2_limits.
+
+Theorem C06_btor2_uint_exact : forall fuel lr v r,
+  KB fuel lr v -> aruns (uint fuel lr) v r ->
+  exists a lr' v', r = ADone (a, lr') v' /\
+    match a with
+    | Res (Ok x) => UintVal (rest_at v 0) x
+    | _ => True
+    end.
+Proof. exact uint_value. Qed.
+Print Assumptions C06_btor2_uint_exact.
+
